@@ -83,3 +83,24 @@ add('M22', x4('SRC/?gsequ.c', "	    r[i] = 1. / SUPERLU_MIN( SUPERLU_MAX( r[i], 
 add('M22b', x4('SRC/?gsequ.c', "		*info = A->nrow + j + 1;", "		*info = A->ncol + j + 1;"), ['C11'], note='empty column reported relative to ncol')
 add('M22c', [('SRC/dmach.c', "	rmach = DBL_EPSILON * 0.5 * FLT_RADIX;", "	rmach = DBL_EPSILON * 0.5;"), ('SRC/smach.c', "	rmach = FLT_EPSILON * 0.5 * FLT_RADIX;", "	rmach = FLT_EPSILON * 0.5;")],
     ['C11'], note='Precision returns eps instead of eps*base')
+
+# ---------------------------------------------------------------- C02 / C03 / C04 / C06 (factor routine; all four variants)
+add('M03', [('SRC/dpivotL.c', "	    if ( rtemp != 0.0 && rtemp >= thresh ) pivptr = diag;", "	    if ( rtemp >= thresh ) pivptr = diag;"),
+            ('SRC/spivotL.c', "	    if ( rtemp != 0.0 && rtemp >= thresh ) pivptr = diag;", "	    if ( rtemp >= thresh ) pivptr = diag;")], ['C04', 'C02'],
+    note='zero diagonal accepted when u = 0 (d and s)')
+add('M03b', [('SRC/dpivotL.c', "	if ( rtemp != 0.0 && rtemp >= thresh )\n	    pivptr = old_pivptr;", "	if ( rtemp != 0.0 && rtemp >= u )\n	    pivptr = old_pivptr;"),
+             ('SRC/spivotL.c', "	if ( rtemp != 0.0 && rtemp >= thresh )\n	    pivptr = old_pivptr;", "	if ( rtemp != 0.0 && rtemp >= u )\n	    pivptr = old_pivptr;")], ['C02'],
+    note='remembered pivot tested against u instead of u*max (d and s)')
+add('M04', [('SRC/dpivotL.c', "	    pivptr = old_pivptr;\n	else\n	    *usepr = 0;", "	    pivptr = old_pivptr;"), ('SRC/spivotL.c', "	    pivptr = old_pivptr;\n	else\n	    *usepr = 0;", "	    pivptr = old_pivptr;")],
+    ['C02'], note='failed reuse does not fall back')
+add('M07', x4('SRC/?gstrf.c', "				      iperm_r, iperm_c, &pivrow, Glu, stat)) )\n		    if ( iinfo == 0 ) iinfo = *info;\n		\n#if ( DEBUGlevel>=2 )\n		?print_lu_col(\"[1]: \"",
+              "				      iperm_r, iperm_c, &pivrow, Glu, stat)) )\n		    iinfo = *info;\n		\n#if ( DEBUGlevel>=2 )\n		?print_lu_col(\"[1]: \""), ['C04'],
+    note='last instead of first singular column reported')
+add('M05', x4('SRC/?gstrf.c', "	((SCformat *)L->Store)->rowind = Glu->lsub;\n", ""), ['C03', 'C06'], note='reuse branch forgets L rowind')
+add('M05b', x4('SRC/?gstrf.c', "        ((SCformat *)L->Store)->nnz = nnzL;\n", ""), ['C03', 'C06'], note='reuse branch forgets nnz(L)')
+add('M08b', x4('SRC/?gssvx.c', "    if ( *info > 0 ) { \n", "    if ( *info > A->ncol ) { \n"), ['C04'], note='singular factorization falls through to the solve')
+add('M12', [('SRC/sp_preorder.c', "    if ( options->Fact == DOFACT ) {\n#undef ETREE_ATplusA", "    if ( options->Fact != FACTORED ) {\n#undef ETREE_ATplusA")], ['C06'],
+    note='etree recomputed and perm_c post-ordered again when the caller reuses them')
+add('M13', x4('SRC/?gstrs.c', "    solve_ops = 0;\n    \n    if ( trans == NOTRANS ) {", "    solve_ops = 0;\n    Lval[0] = Lval[0];\n    if ( trans == NOTRANS ) {"), ['C06'],
+    note='solve writes into the L values')
+add('M12b', x4('SRC/?gssvx.c', "	if ( permc_spec != MY_PERMC && options->Fact == DOFACT )", "	if ( permc_spec != MY_PERMC )"), ['C06'], note='ordering recomputed on SamePattern')
